@@ -51,6 +51,13 @@ func runCase(c Case, r *runlog.R) error {
 	if err != nil {
 		return err
 	}
+	if (runlog.IsOpen("D51") || avoided()["D51"]) && regexpFromContainer(&c) {
+		// open finding D51: an object or list is accepted as the setting of a regular expression
+		// (C13_AVOID=D51 treats it as open during development)
+		r.Excluded("D51")
+		r.Discard()
+		return nil
+	}
 	typ := c.T.Type()
 	prefilled := func() reflect.Value { // a fresh copy of the pre-filled value (addressable)
 		p := reflect.New(typ)
